@@ -551,9 +551,7 @@ impl<TStdlib: Stdlib, TStdIn: Input, TStdOut: Printer, TLpt1: Printer>
                     });
             }
             Instruction::PrintComma => {
-                self.print_comma()
-                    .map_err(RuntimeError::from)
-                    .with_err_at(&pos)?;
+                self.print_comma().with_err_at(&pos)?;
             }
             Instruction::PrintSemicolon => {
                 self.print_state.print_semicolon();
@@ -587,34 +585,38 @@ impl<TStdlib: Stdlib, TStdIn: Input, TStdOut: Printer, TLpt1: Printer>
         RuntimeErrorPos::new(e, call_site)
     }
 
-    fn choose_printer(&mut self) -> &mut dyn Printer {
+    fn choose_printer(&mut self) -> Result<&mut dyn Printer, RuntimeError> {
         let printer_type = self.print_state.get_printer_type();
         let file_handle = self.print_state.get_file_handle();
         match printer_type {
-            PrinterType::Print => &mut self.stdout,
-            PrinterType::LPrint => &mut self.lpt1,
-            PrinterType::File => self
-                .file_manager
-                .try_get_file_info_output(&file_handle)
-                .expect("File not found"),
+            PrinterType::Print => Ok(&mut self.stdout),
+            PrinterType::LPrint => Ok(&mut self.lpt1),
+            PrinterType::File => {
+                let file_output = self
+                    .file_manager
+                    .try_get_file_info_output(&file_handle)?;
+                Ok(file_output)
+            }
         }
     }
 
-    fn print_comma(&mut self) -> std::io::Result<usize> {
+    fn print_comma(&mut self) -> Result<usize, RuntimeError> {
         self.print_state.on_print_comma();
-        let printer = self.choose_printer();
-        printer.move_to_next_print_zone()
+        let printer = self.choose_printer()?;
+        printer
+            .move_to_next_print_zone()
+            .map_err(RuntimeError::from)
     }
 
     fn print_value_from_a(&mut self) -> Result<(), RuntimeError> {
         let v = self.registers().get_a();
         match self.print_state.print_value_from_a(v)? {
             (Some(s), _) => {
-                let printer = self.choose_printer();
+                let printer = self.choose_printer()?;
                 printer.print(&s)?;
             }
             (_, Some(v)) => {
-                let printer = self.choose_printer();
+                let printer = self.choose_printer()?;
                 printer.print_variant(&v)?;
             }
             _ => panic!("print_value_from_a should return either a string or a variant"),
@@ -624,7 +626,7 @@ impl<TStdlib: Stdlib, TStdIn: Input, TStdOut: Printer, TLpt1: Printer>
 
     fn print_end(&mut self) -> Result<(), RuntimeError> {
         let (opt_remaining, should_print_new_line) = self.print_state.print_end()?;
-        let printer = self.choose_printer();
+        let printer = self.choose_printer()?;
         if let Some(remaining) = opt_remaining {
             printer.print(&remaining)?;
         }
